@@ -91,14 +91,20 @@ LIBRARY = {
     "CY": (1, 1, 0), "CX": (1, 1, 0), "CZ": (1, 1, 0), "CS": (1, 1, 0), "CT": (1, 1, 0), "CPHASE": (1, 1, 1),
     "TOFFOLI": (2, 1, 0), "FREDKIN": (1, 2, 0),
     "iSWAP": (0, 2, 0), "SWAPalpha": (0, 2, 1),          # other spellings accepted by add_gate (kept as the gate's name)
+    "IDLE": (0, 1, 0), "PHASEGATE": (0, 1, 1),           # legacy names resolved by Gate.get_compact_qobj (not in GATE_CLASS_MAP)
 }
+LEGACY = {"IDLE", "PHASEGATE"}
 ALIASES = {"iSWAP": "ISWAP", "SWAPalpha": "SWAPALPHA"}
 # other spellings with the same operator (`aliasOf` of lean/QipVerif/Lemmas/SchedFull.lean); compared on the real library
 SAME_OPERATOR = {"H": "SNOT", "CX": "CNOT", "iSWAP": "ISWAP", "SWAPalpha": "SWAPALPHA"}
 ORDERED_TARGETS = {"RZX"}          # the only library gate with two targets that are not interchangeable
 # one representative per class the scheduler can distinguish (name tests of commutation_rules,
 # shape of controls/targets) -- used for the exhaustive length-3 enumeration
-CLASS_REPS = ["CNOT", "X", "RX", "Z", "RZ", "QASMU", "SWAP", "CZ", "TOFFOLI", "FREDKIN"]
+CLASS_REPS = ["CNOT", "X", "RX", "Z", "RZ", "QASMU", "SWAP", "CZ", "TOFFOLI", "FREDKIN", "IDLE"]
+ONE_QUBIT = [n for n, (nc, nt, _) in LIBRARY.items() if (nc, nt) == (0, 1)]
+# names for the "few names" pools of the random generators (many commuting pairs and ties); IDLE on purpose
+FEW_NAMES = ["CNOT", "X", "RX", "Z", "RZ", "CZ", "Y", "RY", "SWAP", "TOFFOLI", "CRX", "S", "T", "SNOT", "QASMU", "IDLE",
+             "IDLE", "PHASEGATE", "FREDKIN", "ISWAP", "MS"]
 
 ANGLES = [0.3, 1.1, 2.3, 0.7, 1.9, 2.9]
 
@@ -107,7 +113,35 @@ def library_check():
     """names of GATE_CLASS_MAP that this table does not know (reported as a note)"""
     from qutip_qip.operations.gateclass import GATE_CLASS_MAP
     known = set(LIBRARY)
-    return sorted(set(GATE_CLASS_MAP) - known), sorted(known - set(GATE_CLASS_MAP))
+    return sorted(set(GATE_CLASS_MAP) - known), sorted(known - set(GATE_CLASS_MAP) - LEGACY)
+
+
+def interleave_shapes(full=False):
+    """Circuits in which a gate F sits BETWEEN two non-commuting gates on the same qubit (F ranges over every one-qubit
+    name of the library, IDLE included, so that a rule or a dependency loop that lets F hide the earlier gate is exposed):
+      * G1(0); F(0); G2(0)                                  for non-commuting one-qubit G1, G2
+      * G1(0); F(0); C(0,1); F'(1); G2(1)                    through a two-qubit gate (wrong already under plain ASAP)
+      * G1(0); F(0); F'(0); G2(0)   and   C(0,1); F(1); G2(1)
+    `full`: all ordered pairs (G1, G2) of one-qubit names instead of a few non-commuting ones.  Yields name/targets/controls
+    triples (the caller adds parameters, which differ from position to position)."""
+    ones = ONE_QUBIT
+    pairs = [(a, b) for a in ones for b in ones] if full else \
+        [("RX", "RZ"), ("SNOT", "RY"), ("X", "Z"), ("QASMU", "R"), ("RZ", "SNOT"), ("Y", "RX"), ("S", "SQRTNOT")]
+    twos = [("CNOT", [1], [0]), ("CNOT", [0], [1]), ("CZ", [1], [0]), ("SWAP", [0, 1], []), ("CRX", [1], [0]),
+            ("ISWAP", [0, 1], []), ("MS", [0, 1], [])]
+    for a, b in pairs:
+        for f in ones:
+            yield [(a, [0], []), (f, [0], []), (b, [0], [])]
+    short = ["IDLE", "Z", "X", "PHASEGATE", "SNOT", "T"]
+    fillers = ones if full else short
+    for a, b in pairs[:49] if full else pairs:
+        for f in fillers:
+            for g in short:
+                for c in twos:
+                    yield [(a, [0], []), (f, [0], []), c, (g, [1], []), (b, [1], [])]
+            yield [(a, [0], []), (f, [0], []), ("IDLE", [0], []), (b, [0], [])]
+            for c in twos:
+                yield [c, (f, [1], []), (b, [1], [])]
 
 
 def arg_for(name, k):
